@@ -467,6 +467,20 @@ theorem sys_own_view_is_world_step (E : Env) (S : Settings) (sys : SysSt) (c : N
           simp only [Option.map_some, Option.some.injEq] at hsv
           exact ⟨ga, w', rfl, by rw [← hsv]; exact hst⟩
 
+/-- **C02 at system level:** when the documented precondition of the meant action does not hold for the view the
+coordinator holds and the shared tables, executing the message changes neither that view nor the tables. -/
+theorem sys_refused_no_effect (E : Env) (sys : SysSt) (c : Nat) (a : Act) (ga : GAction) (w' : World) (v' : View)
+    (hsem : E.sem a = some ga) (hp : pre sys.w (sys.st.agent c).view ga = false)
+    (hx : executes E sys c a = some (w', v')) : w' = sys.w ∧ v' = (sys.st.agent c).view := by
+  unfold executes at hx
+  split at hx
+  · rw [hsem] at hx
+    simp only [Option.bind_some] at hx
+    rw [C02_no_effect sys.w (sys.st.agent c).view ga hp] at hx
+    simp only [Option.some.injEq, Prod.mk.injEq] at hx
+    exact ⟨hx.1.symm, hx.2.symm⟩
+  · cases hx
+
 end NSG.Sys
 
 namespace NSG.Sys
